@@ -613,7 +613,9 @@ func (c *Cache[K, V]) scheduleCallback(task callbackTask[K, V]) {
 			s := c.shardByHash(kh)
 			s.mu.RLock()
 			item, exists := s.tab.lookup(kh, task.key)
-			expired := exists && item.expireTime > 0 && c.nowNano() > item.expireTime
+			// the deadline identifies this call's own write: a key deleted and
+			// written again carries a different stamp and must not fire it.
+			expired := exists && item.expireTime == task.expireTime && c.nowNano() > item.expireTime
 			s.mu.RUnlock()
 			if expired {
 				task.callback(task.key, task.value)
